@@ -801,10 +801,12 @@ class spawn(SpawnBase):
         self.stdout.flush()
         self._buffer = self.buffer_type()
         self._before = self.buffer_type()
+        if escape_character is not None and PY3:
+            # (before the terminal is switched to raw mode: this raises for
+            # a character that is not Latin-1)
+            escape_character = escape_character.encode('latin-1')
         mode = tty.tcgetattr(self.STDIN_FILENO)
         tty.setraw(self.STDIN_FILENO)
-        if escape_character is not None and PY3:
-            escape_character = escape_character.encode('latin-1')
         try:
             self.__interact_copy(escape_character, input_filter, output_filter)
         finally:
